@@ -46,7 +46,11 @@ MOLS_RARE = [
 MOLS_RELATED = ["COC(=O)OC", "CCOC(=O)OCC", "CNC(=O)OC", "CC(=O)OCC", "COC(=O)C=C", "COC(=O)c1ccccc1", "CC(=O)N(C)C", "CCOCC", "COCCOC", "CC(C)(C)O", "OCC(O)CO",
                 "C{[>][<]CC([>])C(=O)OC[<]}|gauss(150,0)|[H]", "C{[>][<]CCOC(=O)O[>][<]}|gauss(150,0)|C"]
 UNTYPABLE = ["C#N", "FC(F)F"]
-PARTIAL = ["N{[>][<]CC[>][<]}|gauss(30,0)|", "CC[$]", "{[][$]CC[$]; [$]C[$]}|gauss(30,0)|"]
+PARTIAL = ["N{[>][<]CC[>][<]}|gauss(30,0)|", "CC[$]", "{[][$]CC[$]; [$]C[$]}|gauss(30,0)|",
+           # branching units whose other ends are capped while the right terminal's descriptor stays open; two open ends; open end
+           # after a second object; open double-bond end
+           "CC{[$][$]CC([$])[$]; [$][H][$]}|gauss(60,0)|", "CC{[$][$]CC([$])[$]; [$]C, [$|2|]O[$]}|gauss(80,0)|", "[$]CC[$]",
+           "N{[>][<]CC[>][<]}|gauss(30,0)|{[>][<]CO[>]; [<]Cl[<]}|gauss(30,0)|", "C{[>][<]CC(C[>])[>]; [<]F[<]}|gauss(50,0)|", "CC=[$]"]
 
 
 def enumerate_cases(tier, seed):
@@ -270,8 +274,8 @@ def eval_case(kind, data):
                 mg = generate(text)
             except Exception:  # noqa
                 continue
-            if mg.fully_generated:
-                continue
+            if len(mg.bond_descriptors) == 0:
+                continue  # (judged by the open descriptors themselves, not by the library's own flag)
             res["states"] += 1
             res["traces"] += 1
             for name, f in (("forcefield_types", lambda: mg.forcefield_types), ("get_forcefield_types", lambda: mg.get_forcefield_types())):
